@@ -23,15 +23,16 @@ COQCHK = ["Properties.C02"]
 RULE = ("pairs: (a) (x, deepcopy(x)) for random nested values x (dict/list/tuple/set/frozenset/scalars, ==-aliased atoms in 30%), (b) single-edit "
         "neighbours: every EDIT_KIND of harness.values (13 kinds) applied at a random position, i.e. at every depth, several times per value, plus 3 near-miss "
         "edits per value (float +-0.5, int +-1, int<->float, bool<->int, str case/blank/newline, str<->bytes, list<->tuple, set<->frozenset, None<->False), "
-        "(c) random independent pairs and all-atom list pairs related by insert/delete/replace/move/dup/rotate edits under 0-2 common levels, (d) a seeded sample (600 / 12000) of the ordered pairs of an exhaustive small universe (599 values), (e) values containing date/datetime/time/timedelta "
+        "(c) random independent pairs and all-atom list pairs related by insert/delete/replace/move/dup/rotate edits under 0-2 common levels, (d) a seeded sample (450 / 9000) of the ordered pairs of an exhaustive small universe (599 values), (e) values containing date/datetime/time/timedelta "
         "and numpy int/float arrays (direct oracle only); configurations: view {text,tree} x verbose_level {1,2} x threshold_to_diff_deeper "
         "{0,0.33,0.9} x zip_ordered_iterables x cache_size {0,1,5000} x max_passes {0,1,10**7}: a random sample of 6 of the 216 per pair, the "
-        "full grid on every 40th pair. Non-trivial = the two values are not Python-equal or the diff is non-empty; distinct by (t1, t2, cfg).")
+        "full grid on every 60th pair. Non-trivial = the two values are not Python-equal or the diff is non-empty; distinct by (t1, t2, cfg).")
 TRUSTED = ["difflib.SequenceMatcher opcodes are an oracle: copy clause proved for every oracle that tiles the lists with balanced 'equal' blocks, soundness "
            "for every valid oracle ('equal' blocks pointwise ==); the correspondence feeds the model the opcodes difflib returns, and the Coq predicate "
            "valid_opcodes itself is evaluated on those opcodes (cases 'difflib_opcodes_valid'), so the hypothesis is observed, not only assumed",
-           "DeepHash of set members is an injective function in the soundness theorem (the real one is not: finding K1) and the stand-in hatom_simple in the "
-           "correspondence (pairs whose sets hold ==-aliased numbers or tag-like strings are compared by the direct oracle only)",
+           "DeepHash of set members: an abstract item hash in the main theorems (injective where the guard says); in the correspondence the DeepHash scalar model "
+           "(hash_atom hexhash) and, for pairs whose sets hold ==-aliased numbers, the memo-threaded model Diff/DiffMemo.v run_diff_m (DeepDiff's run-wide ==-keyed table, "
+           "filled in the implementation's order; cross-checked on 10% of the alias-free pairs too); equality patterns of SHA-256 and of the hex hasher are assumed to coincide",
            "datetimes and numeric arrays are outside the model: direct oracle only (numpy is installed in /venv); Python == / numpy.array_equal + equal shape is the oracle; "
            "failing cases carry a pickle of the inputs so that tzinfo and memory layout survive the replay",
            "values are tree-shaped (fresh containers), floats are half-integers, no bytes dict keys (finding F5)",
@@ -212,34 +213,41 @@ def oracle_pair(ctx, t1, t2, is_copy, full_grid, stats_key, model_ok=True):
                      "result depends on cache_size / max_passes in ordered mode")
 
 
-def corr_pair(ctx, t1, t2, cases, every=False):
-    """model correspondence: full tree result and full text result"""
-    if not D.in_model_guard(t1, t2):
-        ctx.count("outside_model_guard")
-        return
+def corr_pair(ctx, t1, t2, cases, every=False, mcases=None):
+    """model correspondence: full tree result and full text result.  Pairs with ==-aliased set
+    members (finding K2) go to the memo-threaded model Diff/DiffMemo.v (mcases)."""
     rng = ctx.rng
+    memo = not D.in_model_guard(t1, t2)
+    if memo:
+        ctx.count("aliased_set_members:run_on_memo_model" if mcases is not None else "outside_model_guard")
+        if mcases is None:
+            return
+    elif mcases is not None and rng.random() < 0.1:
+        memo = True                      # the memo model is valid everywhere: cross-check it on alias-free pairs too
+        ctx.count("alias_free:also_run_on_memo_model")
     combos = list(itertools.product((True, False), THRS)) if every else [(rng.random() < 0.5, rng.choice(THRS))]
     for zip_, thr in combos:
         try:
-            _corr_one(ctx, t1, t2, cases, every, zip_, thr)
+            _corr_one(ctx, t1, t2, mcases if memo else cases, every, zip_, thr, memo)
         except Exception as e:  # noqa  (a malformed result cannot be canonicalised)
             ctx.break_("correspondence", {"name": "c02", "case": dict(t1=repr(t1), t2=repr(t2), zip=zip_, thr=thr),
                                           "detail": "result cannot be canonicalised: " + repr(e)})
 
 
-def _corr_one(ctx, t1, t2, cases, every, zip_, thr):
+def _corr_one(ctx, t1, t2, cases, every, zip_, thr, memo=False):
         rng = ctx.rng
-        case, r, unmod = D.tree_case(t1, t2, zip_, thr)
+        tree_case, text_case, tag = (D.memo_tree_case, D.memo_text_case, "memo:") if memo else (D.tree_case, D.text_case, "")
+        case, r, unmod = tree_case(t1, t2, zip_, thr)
         if case is not None:
             case[2]["view"] = "tree"
             cases.append(case)
-            ctx.count("corr:tree")
+            ctx.count("corr:" + tag + "tree")
         zip2, thr2 = (zip_, thr) if every else (rng.random() < 0.5, rng.choice(THRS))
         for verbose in ((1, 2) if every else (rng.choice((1, 2)),)):
-            case, r, unmod = D.text_case(t1, t2, zip2, thr2, verbose, ignore_private=rng.random() < 0.5)
+            case, r, unmod = text_case(t1, t2, zip2, thr2, verbose, ignore_private=rng.random() < 0.5)
             if case is not None:
                 cases.append(case)
-                ctx.count("corr:text_v%d" % verbose)
+                ctx.count("corr:%stext_v%d" % (tag, verbose))
 
 
 def opcode_validity_cases(t1, t2):
@@ -303,6 +311,18 @@ def near_miss(rng, v):
     return V.set_at(v, path, new), kind
 
 
+def stable_order(v):
+    """a copy of v whose set / dict iteration order survives a further deepcopy: DeepDiff is run on
+    deep copies, and which member of a set represents a DeepHash collision class (first in iteration
+    order) must be the one the model is given"""
+    for _ in range(8):
+        w = copy.deepcopy(v)
+        if repr(w) == repr(v):
+            return w
+        v = w
+    return v
+
+
 def gen_model_pairs(ctx, n_values):
     """(t1, t2, kind, is_copy)"""
     rng = ctx.rng
@@ -330,6 +350,53 @@ def gen_model_pairs(ctx, n_values):
         t1, t2 = V.plant(rng, rng.choice([0, 0, 1, 2]), (a, b))
         out.append((t1, t2, "atom_list_edit", False))
     return out
+
+
+ALIAS_POOL = [1, 1.0, True, 0, 0.0, False, 2, 2.0, "int:1", "float:1.0", "int:2", "bool:true", "NONE", None, "a", 1.5]
+
+
+def gen_alias_pairs(ctx, n):
+    """pairs whose sets hold ==-aliased numbers and strings spelling type tags, in one or several set
+    pairs of one run (list positions, dict values with t2's key order shuffled, nested): the shapes on
+    which DeepDiff's run-wide DeepHash table - and the order in which it is filled - is observable"""
+    rng = ctx.rng
+
+    def aset():
+        out = set()
+        for a in rng.sample(ALIAS_POOL, rng.randint(0, 3)):
+            if all(not (a == b) for b in out):
+                out.add(a)
+        return frozenset(out) if rng.random() < 0.25 else out
+
+    out = [({"x": {1.0}, "y": {1}}, {"y": {"int:1"}, "x": {1.0}}), ({"x": {1.0}, "y": {1}}, {"x": {1.0}, "y": {"int:1"}}),
+           ({"y": {1}, "x": {1.0}}, {"x": {1.0}, "y": {"int:1"}}), ({1, "a"}, {1.0, "a"}), ([{1.0}, {1}], [{1.0}, {"int:1"}]),
+           ([{1}, {1.0}], [{"int:1"}, {1.0}]), ({True}, {1}), ({0}, {False})]
+    for _ in range(n):
+        k = rng.choice([1, 2, 2, 3])
+        pairs = []
+        for _i in range(k):
+            a = aset()
+            b = aset() if rng.random() < 0.7 else type(a)(a)
+            if type(a) is not type(b) and rng.random() < 0.8:
+                b = type(a)(b)
+            pairs.append((a, b))
+        shape = rng.choice(["list", "dict", "dict", "nested", "tuple"])
+        if k == 1 and rng.random() < 0.5:
+            t1, t2 = pairs[0]
+        elif shape == "list":
+            t1, t2 = [a for a, _ in pairs], [b for _, b in pairs]
+        elif shape == "tuple":
+            t1, t2 = tuple(a for a, _ in pairs), tuple(b for _, b in pairs)
+        else:
+            keys = rng.sample(["x", "y", "z", 1, None], k)
+            order2 = list(range(k))
+            rng.shuffle(order2)
+            t1 = {keys[i]: pairs[i][0] for i in range(k)}
+            t2 = {keys[i]: pairs[i][1] for i in order2}
+            if shape == "nested":
+                t1, t2 = [0, {"d": t1}], [0, {"d": t2}]
+        out.append((t1, t2))
+    return [(a, b, "aliased_set_members", False) for a, b in out]
 
 
 def small_pairs(ctx, n):
@@ -629,6 +696,13 @@ def replay_witnesses(ctx):
             if DeepDiff(copy.deepcopy(a), copy.deepcopy(b)) != {}:
                 ctx.break_("correspondence", {"name": key + " witness", "detail": "finding %s no longer reproduces on the implementation; known_findings.d/C02.json is out of date" % key})
             run_cfg(ctx, a, b, dict(view="text", verbose_level=1), False, False, "verdict_exotic")
+    # C02_visiting_order_observable / C02_table_transparent_refuted: the two Coq witnesses on the implementation
+    r1 = DeepDiff({"x": {1.0}, "y": {1}}, {"y": {"int:1"}, "x": {1.0}})
+    r2 = DeepDiff({"x": {1.0}, "y": {1}}, {"x": {1.0}, "y": {"int:1"}})
+    r3 = DeepDiff({1, "a"}, {1.0, "a"})
+    if r1 != {} or sorted(r2.keys()) != ["set_item_added", "set_item_removed"] or r3 != {}:
+        ctx.break_("correspondence", {"name": "DeepHash table witnesses", "detail": "the implementation no longer behaves like C02_visiting_order_observable / "
+                                      "C02_table_transparent_refuted; Diff/DiffMemo.v is out of date", "impl": [repr(r1), repr(r2), repr(r3)]})
     if "K1" in open_keys:
         r = DeepDiff({"NONE"}, {None})
         if r != {}:
@@ -637,13 +711,14 @@ def replay_witnesses(ctx):
 
 
 def run(ctx):
-    n_values = 1500 if ctx.thorough else 170
-    pairs = gen_model_pairs(ctx, n_values) + small_pairs(ctx, 600)
-    cases, vcases = [], []
+    n_values = 1500 if ctx.thorough else 130
+    pairs = gen_model_pairs(ctx, n_values) + small_pairs(ctx, 450) + gen_alias_pairs(ctx, 3000 if ctx.thorough else 250)
+    cases, vcases, mcases = [], [], []
+    pairs = [(stable_order(t1), stable_order(t2), kind, is_copy) for (t1, t2, kind, is_copy) in pairs]
     for i, (t1, t2, kind, is_copy) in enumerate(pairs):
         ctx.count("gen:" + kind)
-        oracle_pair(ctx, t1, t2, is_copy, full_grid=(i % 40 == 0), stats_key="verdict")
-        corr_pair(ctx, t1, t2, cases, every=(i % 25 == 0))
+        oracle_pair(ctx, t1, t2, is_copy, full_grid=(i % 60 == 0), stats_key="verdict")
+        corr_pair(ctx, t1, t2, cases, every=(i % 25 == 0), mcases=mcases)
         if i % 3 == 0 or kind == "atom_list_edit":
             vcases += opcode_validity_cases(t1, t2)
     for (t1, t2, kind, is_copy) in gen_exotic(ctx, 1500 if ctx.thorough else 150):
@@ -656,6 +731,7 @@ def run(ctx):
     for c in cases[:3]:
         ctx.sample(c[2])
     ctx.coq_cases("c02", D.MODEL_HDR, cases, shard=150, label="tree_and_text")
+    ctx.coq_cases("c02m", D.MODEL_HDR_M, mcases, shard=150, label="memo_model_tree_and_text")
     ctx.coq_cases("c02v", D.MODEL_HDR + "\nFrom DD Require Import Diff.DiffEmpty.", vcases, shard=300, label="difflib_opcodes_valid")
 
 
